@@ -59,3 +59,9 @@ OBLS.append(Obl('C03.url.parse_host.skeleton', ['C03', 'C10', 'C19', 'C02'], 'B(
                 bufn=8, unwind=20, defines=['STR_CAP=8', 'BUF_START=1'], includes=INC, globals=[('omitted', 'const unsigned int'), ('ipv4_fast_fail', 'const unsigned long')],
                 enums=[('ada::scheme::type', 'NOT_SPECIAL')], solver='cadical', timeout=1800, object_bits=11, bound='host <= 8 bytes',
                 note='url::parse_host: success => valid, host present and non-empty (unless the input was empty), credentials / port / scheme untouched; failure clears is_valid'))
+
+OBLS.append(Obl('C03.url.set_port.skeleton', ['C03', 'C19', 'C09', 'C02'], 'B(6)', 'auto', roots=['url_set_port', 'url_get_href_size'], enforce='url_set_port', replace=['url_parse_port1'],
+                specs={'url_set_port': 'skel/url_set_port.spec', 'url_parse_port1': 'skel/url_parse_port.spec'},
+                bufn=6, unwind=10, defines=['STR_CAP=6', 'BUF_START=1'], includes=INC + ['model/url_setter_ghost.h'], enums=[('ada::scheme::type', 'FILE')],
+                solver='cadical', timeout=1800, object_bits=11, bound='port text <= 6 bytes',
+                note='url::set_port: host, credentials, scheme and validity untouched; a port is stored only on a URL that can have one (the contract the ada::url host setter relies on)'))
